@@ -14,25 +14,25 @@ import (
 )
 
 // halfPipe carries bytes one way between an endpoint and the proxy's side of a connection.
-type halfPipe struct {
+type zzhalfPipe struct {
 	ch     chan []byte
 	closed bool
 	reset  bool // the endpoint went away abortively (RST): reads fail instead of ending
 	rest   []byte
 }
 
-func newHalfPipe() *halfPipe { return &halfPipe{ch: make(chan []byte, 32)} }
+func zznewHalfPipe() *zzhalfPipe { return &zzhalfPipe{ch: make(chan []byte, 32)} }
 
-func (h *halfPipe) send(b []byte) {
+func (h *zzhalfPipe) send(b []byte) {
 	if len(b) > 0 && !h.closed {
 		h.ch <- append([]byte(nil), b...)
 	}
 }
-func (h *halfPipe) abort() {
+func (h *zzhalfPipe) abort() {
 	h.reset = true
 	h.closeSend()
 }
-func (h *halfPipe) closeSend() {
+func (h *zzhalfPipe) closeSend() {
 	if !h.closed {
 		h.closed = true
 		close(h.ch)
@@ -43,9 +43,9 @@ func (h *halfPipe) closeSend() {
 // target). Read blocks until the endpoint has sent something or closed; Write
 // delivers to the endpoint at once; ReadFrom is the generic copy loop that
 // net.TCPConn falls back to when splice is not available.
-type tcpConn struct {
+type zztcpConn struct {
 	name     string
-	in       *halfPipe    // endpoint -> proxy
+	in       *zzhalfPipe    // endpoint -> proxy
 	out      bytes.Buffer // proxy -> endpoint: what the endpoint has received
 	outEOF   bool         // the endpoint has observed end-of-stream
 	closed   bool
@@ -53,29 +53,29 @@ type tcpConn struct {
 	deadline int
 }
 
-func newTCPConn(name string) *tcpConn {
-	return &tcpConn{name: name, in: newHalfPipe(), closedc: make(chan struct{})}
+func zznewTCPConn(name string) *zztcpConn {
+	return &zztcpConn{name: name, in: zznewHalfPipe(), closedc: make(chan struct{})}
 }
 
-var errClosedConn = errors.New("use of closed network connection")
-var errConnReset = errors.New("read: connection reset by peer")
+var zzerrClosedConn = errors.New("use of closed network connection")
+var zzerrConnReset = errors.New("read: connection reset by peer")
 
-func (c *tcpConn) Read(p []byte) (int, error) {
+func (c *zztcpConn) Read(p []byte) (int, error) {
 	if c.closed {
-		return 0, errClosedConn
+		return 0, zzerrClosedConn
 	}
 	if len(c.in.rest) == 0 {
 		select {
 		case seg, ok := <-c.in.ch:
 			if !ok {
 				if c.in.reset {
-					return 0, errConnReset
+					return 0, zzerrConnReset
 				}
 				return 0, io.EOF
 			}
 			c.in.rest = seg
 		case <-c.closedc:
-			return 0, errClosedConn
+			return 0, zzerrClosedConn
 		}
 	}
 	n := copy(p, c.in.rest)
@@ -83,15 +83,15 @@ func (c *tcpConn) Read(p []byte) (int, error) {
 	return n, nil
 }
 
-func (c *tcpConn) Write(p []byte) (int, error) {
+func (c *zztcpConn) Write(p []byte) (int, error) {
 	if c.closed || c.outEOF || c.in.reset {
-		return 0, errClosedConn
+		return 0, zzerrClosedConn
 	}
 	c.out.Write(p)
 	return len(p), nil
 }
 
-func (c *tcpConn) ReadFrom(r io.Reader) (int64, error) {
+func (c *zztcpConn) ReadFrom(r io.Reader) (int64, error) {
 	var total int64
 	buf := make([]byte, 8)
 	for {
@@ -111,7 +111,7 @@ func (c *tcpConn) ReadFrom(r io.Reader) (int64, error) {
 	}
 }
 
-func (c *tcpConn) Close() error {
+func (c *zztcpConn) Close() error {
 	if !c.closed {
 		c.closed = true
 		c.outEOF = true
@@ -121,18 +121,18 @@ func (c *tcpConn) Close() error {
 }
 
 // CloseWrite shuts down the sending side: the endpoint observes end-of-stream.
-func (c *tcpConn) CloseWrite() error { c.outEOF = true; return nil }
+func (c *zztcpConn) CloseWrite() error { c.outEOF = true; return nil }
 
-func (c *tcpConn) LocalAddr() net.Addr                { return fakeAddr("10.0.0.2:1") }
-func (c *tcpConn) RemoteAddr() net.Addr               { return fakeAddr("10.0.0.3:2") }
-func (c *tcpConn) SetDeadline(t time.Time) error      { c.deadline++; return nil }
-func (c *tcpConn) SetReadDeadline(t time.Time) error  { return nil }
-func (c *tcpConn) SetWriteDeadline(t time.Time) error { return nil }
+func (c *zztcpConn) LocalAddr() net.Addr                { return zzfakeAddr("10.0.0.2:1") }
+func (c *zztcpConn) RemoteAddr() net.Addr               { return zzfakeAddr("10.0.0.3:2") }
+func (c *zztcpConn) SetDeadline(t time.Time) error      { c.deadline++; return nil }
+func (c *zztcpConn) SetReadDeadline(t time.Time) error  { return nil }
+func (c *zztcpConn) SetWriteDeadline(t time.Time) error { return nil }
 
 // VerifC04Tunnel: a blind CONNECT tunnel with early data in the segment of the
 // CONNECT head, traffic in both directions, and either end closing first.
 func VerifC04Tunnel() {
-	client, target := newTCPConn("client"), newTCPConn("target")
+	client, target := zznewTCPConn("client"), zznewTCPConn("target")
 	p := NewProxy()
 	dialOK := vf.Choice("dial-ok", 2) == 1
 	p.SetDial(func(network, addr string) (net.Conn, error) {
@@ -143,7 +143,7 @@ func VerifC04Tunnel() {
 	})
 	returned := false
 	go func() {
-		serveConn(p, client)
+		zzserveConn(p, client)
 		returned = true
 	}()
 
@@ -155,7 +155,7 @@ func VerifC04Tunnel() {
 	vf.Quiesce()
 
 	if !dialOK {
-		got := clientView(client.out.Bytes(), []string{"CONNECT"})
+		got := zzclientView(client.out.Bytes(), []string{"CONNECT"})
 		vf.Assert(len(got) == 1 && got[0].status == 502 && len(got[0].header["Warning"]) >= 1, "unreachable-target-yields-502-with-warning")
 		vf.Reach("dial-failed")
 		return
@@ -243,13 +243,13 @@ func VerifC04Tunnel() {
 // reads its answer; what follows that answer on the downstream connection
 // (possibly in the same segment) is tunnel payload from the target.
 func VerifC04Downstream() {
-	client, down := newTCPConn("client"), newTCPConn("downstream")
+	client, down := zznewTCPConn("client"), zznewTCPConn("downstream")
 	p := NewProxy()
 	p.SetDownstreamProxy(&url.URL{Scheme: "http", Host: "downstream.example:3128"})
 	p.SetDial(func(network, addr string) (net.Conn, error) { return down, nil })
 	returned := false
 	go func() {
-		serveConn(p, client)
+		zzserveConn(p, client)
 		returned = true
 	}()
 	head := []byte("CONNECT example.com:443 HTTP/1.1\r\nHost: example.com:443\r\n\r\n")
@@ -276,7 +276,7 @@ func VerifC04Downstream() {
 		// client, and the connection that was dialled is released
 		down.in.send([]byte(answer))
 		vf.Quiesce()
-		got := clientView(client.out.Bytes(), []string{"CONNECT"})
+		got := zzclientView(client.out.Bytes(), []string{"CONNECT"})
 		vf.Assert(len(got) == 1 && got[0].status == 502 && len(got[0].header["Warning"]) >= 1, "unreachable-target-yields-502-with-warning")
 		client.in.closeSend()
 		vf.Quiesce()
